@@ -246,7 +246,98 @@ pub fn run_history<K: Kit>(sc: &Scenario, seq: &[u8], logging: bool) -> Result<(
 /// As `run_history`, with a call boundary after the first `split` samples (tree planners: the
 /// first call gets exactly those samples as its budget and normally ends in Timeout; PRM: a second
 /// `construct_roadmap` call and a second query follow the first).
+/// `split` value that selects the prior-life variant (see `prior_life`).
+pub const PRIOR_LIFE: usize = usize::MAX;
+
+/// The coarsest / widest sibling of a space spec: resolution fraction 1 (where the space has a
+/// setter) and boxes twice as wide — what a planner object may have been used with before.
+fn prior_spec(spec: &crate::kit::Spec) -> crate::kit::Spec {
+    use crate::kit::Spec;
+    let mut s = spec.clone();
+    match &mut s {
+        Spec::Rv { bounds, frac, .. } => {
+            *frac = Some(1.0);
+            if let Some(b) = bounds {
+                for (l, u) in b.iter_mut() {
+                    if l.is_finite() && u.is_finite() {
+                        let w = *u - *l;
+                        *l -= 0.5 * w;
+                        *u += 0.5 * w;
+                    }
+                }
+            }
+        }
+        Spec::So2 { frac, bounds } => {
+            *frac = Some(1.0);
+            *bounds = None;
+        }
+        Spec::So3 { frac, bounds } => {
+            *frac = Some(1.0);
+            *bounds = None;
+        }
+        Spec::Cmp { parts, .. } => {
+            for p in parts.iter_mut() {
+                *p = prior_spec(p);
+            }
+        }
+        Spec::Se2 { .. } | Spec::Se3 { .. } => {}
+    }
+    s
+}
+
+/// A previous life of the same planner object: set up with ANOTHER problem (another space object —
+/// coarser resolution, wider / no bounds — the obstacle-free world, start and goal exchanged) and
+/// driven with the given samples; afterwards the caller sets it up with the scenario's real problem.
+/// Anything a planner caches across `setup` (resolution, roadmap, checker, links, generator) shows in
+/// the second life, which the ordinary oracles judge.
+fn prior_life<K: Kit>(rig: &mut Rig<K>, sc: &Scenario, seq: &[u8]) {
+    use crate::seams::{HGoal, Scripted};
+    let pspec = prior_spec(&sc.spec);
+    let space = std::sync::Arc::new(Scripted::<K>::new(K::build(&pspec), rig.alphabet.clone()));
+    let dist = crate::scen::dist_fn::<K>(&pspec);
+    let p_start = rig.goal.samples[0].clone();
+    let goal = std::sync::Arc::new(HGoal::<K>::new(vec![(rig.start.clone(), sc.goal_balls[0].1)], vec![rig.start.clone()], dist));
+    let pd = std::sync::Arc::new(crate::drv::Pd::<K> { space: space.clone(), start_states: vec![p_start], goal });
+    let free = std::sync::Arc::new(crate::scen::build_world::<K>(&pspec, &crate::scen::WorldSpec { name: "free".into(), obst: vec![] }));
+    rig.drv.setup(pd, free);
+    space.push_script(seq);
+    space.expire_when_exhausted.set(true);
+    oxmpl::verif::clock_reset(1_000_000);
+    if rig.is_prm() {
+        rig.drv.set_prm_timeout(crate::drv::iters_secs(seq.len().max(1)));
+        let _ = rig.drv.construct_roadmap();
+        let _ = rig.drv.solve(LONG);
+    } else {
+        let _ = rig.drv.solve(crate::drv::iters(seq.len().max(1)));
+    }
+    // the second life starts with fresh harness-side counters and logs
+    crate::seams::seam_reset();
+    oxmpl::verif::clock_reset(1_000_000);
+}
+
 pub fn run_history_split<K: Kit>(sc: &Scenario, seq: &[u8], logging: bool, split: usize) -> Result<(Rig<K>, Exec<K>), Caught> {
+    if split == PRIOR_LIFE {
+        SPLIT.with(|s| s.set(split));
+        watch_desc(|| format!("{{\"scenario\": {:?}, \"samples\": {:?}, \"prior_life\": true}}", sc.tag, seq));
+        let mut rig = guarded(|| {
+            let mut rig = Rig::<K>::new(sc, false);
+            prior_life::<K>(&mut rig, sc, seq);
+            let (pd, w) = (rig.pd.clone(), rig.world.clone());
+            rig.drv.setup(pd, w);
+            rig
+        })?;
+        rig.logging(logging);
+        let exec = guarded(|| {
+            if rig.is_prm() {
+                let c = rig.construct(seq);
+                let r = rig.drv.solve(LONG);
+                Exec { calls: vec![(r, 0)], construct: Some(c), alt: None }
+            } else {
+                Exec { calls: rig.feed(seq), construct: None, alt: None }
+            }
+        })?;
+        return Ok((rig, exec));
+    }
     SPLIT.with(|s| s.set(split));
     watch_desc(|| format!("{{\"scenario\": {:?}, \"samples\": {:?}, \"call_boundary\": {split}}}", sc.tag, seq));
     let mut rig = guarded(|| Rig::<K>::new(sc, true))?;
@@ -327,8 +418,13 @@ pub fn par_explore<K: Kit>(
                         v.retain(|k| *k >= 1 && *k < seq.len());
                         v
                     };
+                    let mut ks = ks;
+                    ks.push(PRIOR_LIFE);
                     for k in ks {
                         let r = run_history_split::<K>(&sh.sc, seq, logging, k);
+                        if k == PRIOR_LIFE {
+                            rep.count("prior_life_histories", 1);
+                        }
                         rep.count("evaluations", 1);
                         rep.count("split_histories", 1);
                         rep.count("transitions", seq.len() as u64);
